@@ -194,7 +194,7 @@ def oracle(run, s, o):
 def run(run: Run):
     run.run_audit()
     specs = gen_specs(run)
-    sessions.run_sessions(run, specs, oracle, relevant=1 | 4 | 8 | 16 | 64)
+    sessions.run_sessions(run, specs, oracle, relevant=1 | 4 | 8 | 16 | 64 | 256)
     return run.finish(
         "proof",
         "for accepted triples on the lattice, every position is altered: each of the 2+T scalars (four replacement kinds), each of the 3+2k points (junk, "
